@@ -255,6 +255,36 @@ where
         Comp::SkipStepBy => fin!(it.skip(a).step_by(b.max(1)), plain),
         Comp::RevSkip => fin!(it.rev().skip(a), plain),
         Comp::RevStepBy => fin!(it.rev().step_by(a.max(1)), plain),
+        Comp::Rfold => {
+            let hint = it.size_hint();
+            let s = it.rfold(0i64, |acc, x| acc.wrapping_mul(31).wrapping_add(cv(x).0 as i64));
+            AdaptOut { len: None, hint, seq: vec![(s, (0, 0, 0))] }
+        }
+        Comp::FindThenRest | Comp::RfindThenRest | Comp::PositionThenRest => {
+            let mut it = it.map(cv);
+            let want = (a % 4) as u32;
+            let mut seq: Vec<(i64, Elem)> = Vec::new();
+            match comp {
+                Comp::FindThenRest => seq.extend(it.find(|x| x.0 % 4 == want).map(|e| (-7, e))),
+                Comp::RfindThenRest => seq.extend(it.rfind(|x| x.0 % 4 == want).map(|e| (-8, e))),
+                _ => seq.push((it.position(|x| x.0 % 4 == want).map_or(-1, |p| p as i64), (0, 0, 0))),
+            }
+            let len = it.len();
+            let hint = it.size_hint();
+            seq.extend(it.map(|e| (-1i64, e)));
+            AdaptOut { len: Some(len), hint, seq }
+        }
+        Comp::NextsThenCount => {
+            let mut it = it;
+            let mut seq: Vec<(i64, Elem)> = Vec::new();
+            for _ in 0..a {
+                seq.extend(it.next().map(|e| (-5, cv(e))));
+            }
+            let len = it.len();
+            let hint = it.size_hint();
+            seq.push((it.count() as i64, (0, 0, 0)));
+            AdaptOut { len: Some(len), hint, seq }
+        }
     }
 }
 
@@ -305,6 +335,29 @@ pub fn adapt_plain<I: Iterator<Item = T>, T, C: Fn(T) -> Elem + Copy>(it: I, cv:
             Some(AdaptOut { len: None, hint, seq: v.into_iter().map(|e| (-1i64, e)).collect() })
         }
         Comp::SkipStepBy => fin!(it.skip(a).step_by(b.max(1)), plain),
+        Comp::FindThenRest | Comp::PositionThenRest => {
+            let mut it = it.map(cv);
+            let want = (a % 4) as u32;
+            let mut seq: Vec<(i64, Elem)> = Vec::new();
+            if comp == Comp::FindThenRest {
+                seq.extend(it.find(|x| x.0 % 4 == want).map(|e| (-7, e)));
+            } else {
+                seq.push((it.position(|x| x.0 % 4 == want).map_or(-1, |p| p as i64), (0, 0, 0)));
+            }
+            let hint = it.size_hint();
+            seq.extend(it.map(|e| (-1i64, e)));
+            Some(AdaptOut { len: None, hint, seq })
+        }
+        Comp::NextsThenCount => {
+            let mut it = it;
+            let mut seq: Vec<(i64, Elem)> = Vec::new();
+            for _ in 0..a {
+                seq.extend(it.next().map(|e| (-5, cv(e))));
+            }
+            let hint = it.size_hint();
+            seq.push((it.count() as i64, (0, 0, 0)));
+            Some(AdaptOut { len: None, hint, seq })
+        }
         _ => None,
     }
 }
@@ -679,13 +732,13 @@ impl<'c, Q: Queue> Interp<'c, Q> {
             // front: sorted sequences are compared on priorities
             let proj = |mut o: AdaptOut| {
                 for e in o.seq.iter_mut() {
-                    if !matches!(comp, Comp::Rposition | Comp::Fold | Comp::Count) {
+                    if !matches!(comp, Comp::Rposition | Comp::Fold | Comp::Count | Comp::Rfold | Comp::PositionThenRest | Comp::NextsThenCount) || e.0 < 0 {
                         e.1 = (0, 0, e.1 .2);
                     }
                 }
                 o
             };
-            if matches!(comp, Comp::Rposition | Comp::Fold) && self.model.has_ties() {
+            if matches!(comp, Comp::Rposition | Comp::Fold | Comp::Rfold | Comp::FindThenRest | Comp::RfindThenRest | Comp::PositionThenRest) && self.model.has_ties() {
                 return;
             }
             (proj(got), proj(want))
@@ -698,7 +751,7 @@ impl<'c, Q: Queue> Interp<'c, Q> {
             let mut d = ids.clone();
             d.sort_unstable();
             d.dedup();
-            let plain_seq = !matches!(comp, Comp::Peekable | Comp::Rposition | Comp::Count | Comp::Fold | Comp::Chain);
+            let plain_seq = !matches!(comp, Comp::Peekable | Comp::Rposition | Comp::Count | Comp::Fold | Comp::Chain | Comp::Rfold | Comp::PositionThenRest | Comp::NextsThenCount | Comp::Map);
             if plain_seq && d.len() != ids.len() {
                 self.fail(Group::Alias, "adaptor_yielded_twice", format!("iter_mut().{:?}({},{}) handed out an element twice: ids {:?}", comp, a, b, ids));
             } else if got.seq != want.seq || (got.len.is_some() && want.len.is_some() && (got.len != want.len || got.hint != want.hint)) {
@@ -728,7 +781,7 @@ impl<'c, Q: Queue> Interp<'c, Q> {
                 format!("{:?}.{:?}({},{}).size_hint() = {:?}, expected {:?}", which, comp, a, b, got.hint, want.hint),
             );
         }
-        if got.len.is_none() && !matches!(comp, Comp::Rposition | Comp::Nth | Comp::NthBack | Comp::Fold | Comp::Last) && !hint_ok(got.hint, expected_count(&want, comp)) {
+        if got.len.is_none() && !matches!(comp, Comp::Rposition | Comp::Nth | Comp::NthBack | Comp::Fold | Comp::Last | Comp::Rfold | Comp::FindThenRest | Comp::RfindThenRest | Comp::PositionThenRest | Comp::NextsThenCount | Comp::NthThenNthBack | Comp::NextsThenNthBack | Comp::BacksThenNth) && !hint_ok(got.hint, expected_count(&want, comp)) {
             self.fail(Group::IterStd, "adaptor_size_hint_bound", format!("{:?}.{:?}: size_hint {:?} does not bound the {} items produced", which, comp, got.hint, want.seq.len()));
         }
         self.stats.hit("adaptor_run");
